@@ -17,7 +17,7 @@ META = dict(
         quick="hosts: all graphs (connected or not) on <=4 nodes; patterns: all graphs on <=3 nodes (4-node hosts with >=4 bonds only against patterns without bonds or with <=2 nodes); element in {C,N}, "
               "hcount in {0,1}, bond order in {1,2}, charge in {0,1} on the 3-node hosts; strategies all/comp/bt, "
               "strict_cc_count on/off; two different hosts on the same node ids searched one after the other; max_results in {1,2}, threshold in {0,1,2}, pre_filter on/off — all on the "
-              "same symbolic pair Additionally a few two-/three-atom shards with charges in {-2,-1}: different labels whose hash() values coincide in CPython.",
+              "same symbolic pair; additionally a few two-/three-atom shards with charges in {-2,-1}: different labels whose hash() values coincide in CPython.",
         thorough="hosts up to 5 nodes (<=5 edges), patterns up to 3 nodes, charge symbolic everywhere, hcount in {0,1,2}",
     ),
     outside=["hosts > 5 nodes, patterns > 3 nodes", "Strategy.PARTIAL (raises NotImplementedError)",
